@@ -222,15 +222,82 @@ Section PmapProof.
     - contradiction.
   Qed.
 
-  (* when a future raises, what was yielded before is still one result per task, of distinct tasks *)
-  Theorem pmap_abort_no_dup procpool mw tasks sched e :
-    fst (executor_pmap procpool mw tasks sched) = Raised e ->
-    exists ys t others, Permutation (ys ++ t :: others) tasks
+  (* when a future raises (the generator ends: it re-raises, or returns after a KeyboardInterrupt), what was
+     yielded before is still one result per task, of pairwise different tasks, and the culprit is a task *)
+  Theorem pmap_abort_no_dup procpool mw tasks sched :
+    fst (executor_pmap procpool mw tasks sched) <> Done ->
+    exists e ys t others,
+      Permutation (ys ++ t :: others) tasks
       /\ map process ys = map Res (out (snd (executor_pmap procpool mw tasks sched)))
-      /\ process t = Fail e.
+      /\ process t = Fail e
+      /\ fst (executor_pmap procpool mw tasks sched) = (if ki e then Interrupted else Raised e).
   Proof.
     intros Hf. pose proof (pmap_post procpool mw tasks sched) as H. unfold Post in H.
-    rewrite Hf in H. destruct H as [_ H]. exact H.
+    destruct (fst (executor_pmap procpool mw tasks sched)) as [|e| |] eqn:Ef.
+    - exfalso. apply Hf. reflexivity.
+    - destruct H as [Hk [ys [t [others [Hp [Ho Hpt]]]]]].
+      exists e, ys, t, others. rewrite Hk. repeat split; assumption.
+    - destruct H as [e [Hk [ys [t [others [Hp [Ho Hpt]]]]]]].
+      exists e, ys, t, others. rewrite Hk. repeat split; assumption.
+    - contradiction.
+  Qed.
+
+  (* ---- the submission window: never more than [W] futures pending *)
+  Lemma remove_nth_length : forall (l : list T) i, i < length l -> S (length (remove_nth i l)) = length l.
+  Proof.
+    induction l as [|a l IH]; intros i Hi; cbn [length] in Hi; [lia|].
+    destruct i as [|i]; [reflexivity|].
+    rewrite remove_nth_cons. cbn [length]. rewrite (IH i); [reflexivity | lia].
+  Qed.
+
+  Definition ev_ok (W : nat) (e : event T R) : Prop :=
+    match e with
+    | ESnap l => length l <= W
+    | ESubmit _ l => S (length l) <= W
+    | _ => True
+    end.
+
+  Definition WInv (W : nat) (s : st) : Prop :=
+    Forall (ev_ok W) (evs s) /\ length (snap s) + length (fresh s) <= W.
+
+  Lemma refill_winv W b i (s : st) :
+    i < length (snap s) -> WInv W s -> WInv W (refill b (remove_nth i (snap s)) s).
+  Proof.
+    intros Hi [Hev Hlen]. pose proof (remove_nth_length (snap s) i Hi) as Hl.
+    unfold WInv, ParProc.refill. destruct b; [cbn [snap fresh evs]; split; [exact Hev | lia]|].
+    destruct (rest s) as [|x xs]; cbn [snap fresh evs]; [split; [exact Hev | lia]|].
+    split.
+    - apply Forall_app. split; [exact Hev|]. constructor; [|constructor].
+      cbn [ev_ok]. rewrite app_length. lia.
+    - rewrite app_length. cbn [length]. lia.
+  Qed.
+
+  Lemma loop_winv W : forall fuel sched (s : st), WInv W s -> WInv W (snd (loop fuel sched s)).
+  Proof.
+    induction fuel as [|fuel IH]; intros sched s HW; [exact HW|].
+    rewrite loop_S. destruct (snap s) as [|d sn] eqn:Es.
+    - destruct (fresh s) as [|f fr] eqn:Ef; [exact HW|].
+      apply IH. destruct HW as [Hev Hlen]. unfold WInv. cbn [snap fresh evs]. rewrite Es, Ef in Hlen. split.
+      + apply Forall_app. split; [exact Hev|]. constructor; [|constructor]. cbn [ev_ok length] in *. lia.
+      + cbn [length] in *. lia.
+    - cbv zeta. rewrite <- Es.
+      assert (Hi : Nat.modulo (hd 0 sched) (length (snap s)) < length (snap s))
+        by (apply Nat.mod_upper_bound; rewrite Es; cbn; lia).
+      set (i := Nat.modulo (hd 0 sched) (length (snap s))) in *.
+      destruct (process (nth i (snap s) d)) as [v|e].
+      + apply IH. pose proof (refill_winv W false i s Hi HW) as [Hev Hlen].
+        unfold WInv, ParProc.yield. cbn [snap fresh evs]. split; [|exact Hlen].
+        apply Forall_app. split; [exact Hev|]. constructor; [exact I | constructor].
+      + cbn [snd]. apply refill_winv; assumption.
+  Qed.
+
+  Theorem pmap_window_bound mw tasks sched :
+    Forall (ev_ok (window mw)) (evs (snd (executor_pmap true mw tasks sched))).
+  Proof.
+    unfold ParProc.executor_pmap. destruct tasks as [|a l] eqn:Et; [constructor|]. rewrite <- Et.
+    apply loop_winv. unfold WInv. cbn [snap fresh evs length]. split.
+    - apply Forall_forall. intros e He. apply in_map_iff in He. destruct He as [x [<- _]]. exact I.
+    - apply firstn_le_length.
   Qed.
 
   (* ---- the sequential mode *)
